@@ -77,6 +77,26 @@ D = {
  "C15d": ("prompt condition rewritten as `idx <= len - 2`", "-i on a program without instructions"),
  "C17d": ("`print mem : n` masks n to 16 bits", "DS-relative dump longer than 64 KiB"),
  "C18d": ("INT 21h/0Ah with capacity 0 returns before reading the line", "capacity 0 followed by another console read in the same run"),
+ "C01e": ("register INC/DEC/NEG decide the write-back by a thread-local mark that only register forms of MUL/DIV consume", "a memory-form MUL/IMUL/DIV/IDIV earlier in the run, then INC/DEC/NEG of a register"),
+ "C02e": ("one-entry memo of the last shift/rotate keyed by (operation, value, count, carry-in), operand width missing from the key", "shift/rotate with count >= 2, then the same operation, count, carry-in and numeric value at the other operand width"),
+ "C03e": ("divide-error message slices the raw text with offsets of the comment-stripped text", "comments before the dividing line; multi-byte characters in them make the slice panic"),
+ "C04e": ("data loader skips a `set` that names the segment already selected (counter not reset)", "second `set` of the same segment after data, then a label defined behind it"),
+ "C05e": ("data-label address cached per (label, code line), DS not part of the key", "the same instruction executed twice with another DS in between (loop / procedure called twice)"),
+ "C06e": ("driver 'endless jump' guard remembers flags/CX of the last self-targeting jump and is never reset", "a self-targeting LOOP activated twice, the second time with CX=2 and equal flags"),
+ "C07e": ("driver runs REPE/REPNE CMPS/SCAS to CX=0 in an inner loop while single-stepping", "-i or trap flag, compare string instruction with REPE/REPNE that should stop early"),
+ "C08e": ("driver memoises jump targets by bare name", "a label and a procedure with the same name, CALL of the one before JMP to the other"),
+ "C09e": ("driver appends no HLT when the program already ends in HLT", "label behind the final written HLT reached by a taken jump (stepping: source-map lookup panics)"),
+ "C10e": ("`print mem : n` merged into the `start : n` alternative: overflow now returns a parse error", "accepted `print mem : n` statement with DS*16+n beyond the last byte: the driver reaches its Internal Error path"),
+ "C11e": ("macro placeholder respelled `$i` at definition and use", "macro with 11 or more parameters using the 11th or a later one"),
+ "C12e": ("same change as C04e, judged through C12", "second `set` of the segment already selected, after data"),
+ "C13e": ("successful macro expansions memoised by name+arguments, not invalidated by a new definition", "define, use, define again with another body, use again with the same arguments"),
+ "C14e": ("undefined-label list de-duplicated by source position", "one macro use producing two forward jumps, the undefined label sorting after a defined one"),
+ "C15e": ("LexerHelper::get_line continues from the line found last time; step-back loop lacks the `line > 0` guard", "executable statement on physical line 1, looked up after a lookup on a later line (loop / call, stepping or print)"),
+ "C16e": ("driver keeps the looked-up source line of the last step prompt and reuses it for messages", "trap flag switched on and off again by the program, then a print / int 3 / divide error"),
+ "C17e": ("one shared console line buffer: INT 21h leaves its line in it, the prompt appends", "INT 21h read of a non-blank line, then a prompt command"),
+ "C18e": ("INT 21h reads through a persistent BufReader that swallows all available input", "console read followed by a prompt (int 3 / stepping) and further reads"),
+ "C19e": ("undefined labels sorted by position only", "two undefined labels produced by one macro use (equal positions): report order follows hash order"),
+ "C20e": ("one shared console line buffer: the prompt leaves `n` in it, INT 21h appends", "a prompt answered before a later INT 21h AH=1 / AH=0Ah read"),
 }
 rows = []
 for d in sorted(glob.glob(os.path.join(ROOT, "seeded", "*"))):
